@@ -66,9 +66,16 @@ OPTIONS_BFG = """\
 argument('level', default='1')
 {flags}
 """
-TOOLCHAIN = """\
-compile_options({cflags!r}, 'c')
-"""
+# successive states of the toolchain file: settings are changed, added and
+# removed again (an empty file makes no setting at all)
+TC_STATES = [
+    "compile_options('-O1', 'c')\n",
+    "compile_options('-O2', 'c')\nlink_options('-Wl,--as-needed')\n",
+    "compile_options('-O3 -g', 'c')\nenviron['VF_TC'] = 'x'\n",
+    "",
+    "link_options('-s')\ncompile_options(environ.get('CFLAGS', '') + "
+    "' -DTC', 'c')\n",
+]
 
 DIRS = ['src', 'src/core', 'src/util', 'plat', 'data', 'assets', 'include',
         'include/detail', 'sub', 'other']
@@ -102,7 +109,7 @@ class RegenMachine(RuleBasedStateMachine):
         self.history = []
         self.flags = {'build': 0, 'sub': 0, 'options': 0}
         self.comments = {'build': 0, 'sub': 0, 'options': 0, 'toolchain': 0}
-        self.cflags = '-O1'
+        self.tcstate = 0
         self.files = set()
         self.configured = False
         self.pending = []           # kinds of edits since the last build
@@ -150,7 +157,7 @@ class RegenMachine(RuleBasedStateMachine):
             sandbox.write_file(os.path.join(self.src, 'options.bfg'),
                                OPTIONS_BFG.format(flags=flags('options')))
         if 'toolchain' in which:
-            sandbox.write_file(self.tc, TOOLCHAIN.format(cflags=self.cflags) +
+            sandbox.write_file(self.tc, TC_STATES[self.tcstate] +
                                '\n'.join('# c{}'.format(i) for i in range(
                                    self.comments['toolchain'])) + '\n')
 
@@ -283,8 +290,7 @@ class RegenMachine(RuleBasedStateMachine):
             return
         if semantic:
             if which == 'toolchain':
-                self.cflags = {'-O1': '-O2', '-O2': '-O3 -g',
-                               '-O3 -g': '-O1'}[self.cflags]
+                self.tcstate = (self.tcstate + 1) % len(TC_STATES)
             else:
                 self.flags[which] += 1
         else:
@@ -496,8 +502,7 @@ def replay_history(case, rec):
                 which, sem = h[1], h[2] == 'semantic'
                 if sem:
                     if which == 'toolchain':
-                        m.cflags = {'-O1': '-O2', '-O2': '-O3 -g',
-                                    '-O3 -g': '-O1'}[m.cflags]
+                        m.tcstate = (m.tcstate + 1) % len(TC_STATES)
                     else:
                         m.flags[which] += 1
                 else:
